@@ -582,6 +582,17 @@ func solveAll(dir string, reps []*FuncReport, filter func(*Obligation) bool, tim
 				to = min(timeoutS, 3)
 			}
 			res = runSolvers(dir, j.o.Name, script, to, all && !j.o.ExpectSat, false)
+			if !j.o.ExpectSat && res.Verdict != "unsat" && res.Verdict != "sat" {
+				// tier 3 (proving only): the ground skeleton. Every quantified hypothesis is replaced by a free proposition that
+				// still implies the instances the generator produced for it. Any model of the original script extends to a model
+				// of the skeleton (give the proposition the truth value of the formula), so `unsat` here is a proof; nothing
+				// else is concluded from it.
+				gres := runSolvers(dir, j.o.Name+".g", groundSkeleton(script), focusedS, false, false)
+				if gres.Verdict == "unsat" {
+					res = gres
+					res.Solver += "(ground)"
+				}
+			}
 		} else {
 			res.Solver += "(focused)"
 		}
@@ -725,6 +736,32 @@ func allocOnly(syms []string) bool {
 }
 
 // dropQuantifiedAsserts removes every top-level (assert ...) line that contains a quantifier.
+// groundSkeleton: see tier 3 of solveOne. `(define-fun Q!n () Bool (forall …))` becomes `(declare-const Q!n Bool)`; assertions that
+// are themselves quantified are dropped (fewer hypotheses); the goal - the last assertion - is kept as it is.
+func groundSkeleton(script string) string {
+	lines := strings.Split(script, "\n")
+	last := -1
+	for i, line := range lines {
+		if strings.HasPrefix(line, "(assert ") {
+			last = i
+		}
+	}
+	var b strings.Builder
+	for i, line := range lines {
+		if strings.HasPrefix(line, "(define-fun Q!") && strings.Contains(line, " () Bool (forall ") {
+			name := strings.Fields(line)[1]
+			b.WriteString("(declare-const " + name + " Bool)\n")
+			continue
+		}
+		if i != last && strings.HasPrefix(line, "(assert ") && (strings.Contains(line, "(forall ") || strings.Contains(line, "(exists ")) {
+			continue
+		}
+		b.WriteString(line)
+		b.WriteByte('\n')
+	}
+	return b.String()
+}
+
 func dropQuantifiedAsserts(script string) string {
 	var b strings.Builder
 	for _, line := range strings.Split(script, "\n") {
